@@ -16,6 +16,7 @@ terminal invariant is evaluated.
 from __future__ import annotations
 
 import contextlib
+import copy
 import importlib
 import io
 import os
@@ -675,7 +676,17 @@ def run_batch(cases: list) -> list:
     out = []
     for c in cases:
         try:
-            out.append(run_case(c))
+            try:
+                out.append(run_case(c))
+            except Exception:  # noqa: BLE001
+                # transient environment failure (a git spawn failing on the overloaded box ...): once more, on a fresh
+                # repository; a deterministic harness error fails again and is reported as a crash (exit 2)
+                global REC
+                REC = None
+                W["cached"].clear()
+                for name in [m for m in sys.modules if m in (PKG, PRIV) or m.startswith((PKG + ".", PRIV + "."))]:
+                    del sys.modules[name]
+                out.append(run_case(copy.deepcopy(c)))
         except BaseException as exc:  # noqa: BLE001
             out.append({"key": c.get("key"), "plan": c["plan"], "intrs": c["intrs"], "crash": "".join(traceback.format_exception(type(exc), exc, exc.__traceback__))[-1500:]})
     return out
